@@ -125,4 +125,64 @@ theorem la_run_snoc (nVals : Nat) (h : Hist) (e : Event) :
     run nVals (h ++ [e]) = (run nVals h).add e := by
   unfold run; rw [List.foldl_append]; rfl
 
+/-! ### frame of `assignBranch` and `add` -/
+
+/-- what `assignBranch` does: tables other than `lastSeq`/`creatorOf`/`nBr` are untouched, the
+    branch of the event gets `lastSeq = e.seq`, and the three ways the branch is chosen -/
+theorem la_assign_cases (s : VState) (e : Event) :
+    ((s.assignBranch e).1.size = s.size ∧ (s.assignBranch e).1.parents = s.parents ∧
+      (s.assignBranch e).1.la = s.la ∧ (s.assignBranch e).1.hb = s.hb ∧
+      (s.assignBranch e).1.branchOf = s.branchOf ∧ (s.assignBranch e).1.nVals = s.nVals) ∧
+    (∀ b, (s.assignBranch e).1.lastSeq b = if b = (s.assignBranch e).2 then e.seq else s.lastSeq b) ∧
+    (((s.assignBranch e).2 = s.nBr ∧ (s.assignBranch e).1.nBr = s.nBr + 1) ∨
+     ((s.assignBranch e).1.nBr = s.nBr ∧
+       (((s.assignBranch e).2 = e.creator ∧ s.lastSeq (s.assignBranch e).2 = 0) ∨
+        (e.parents ≠ [] ∧ (s.assignBranch e).2 = s.branchOf (e.parents.headD 0) ∧
+          (s.lastSeq (s.assignBranch e).2 + 1) % 4294967296 = e.seq)))) := by
+  unfold VState.assignBranch
+  by_cases h1 : (decide (e.seq ≤ 1) || e.parents.isEmpty) = true
+  · rw [if_pos h1]
+    by_cases h2 : Gen.Vec.firstOnBranch (s.lastSeq e.creator) = true
+    · rw [if_pos h2]
+      refine ⟨⟨rfl, rfl, rfl, rfl, rfl, rfl⟩, fun b => rfl, Or.inr ⟨rfl, Or.inl ⟨rfl, ?_⟩⟩⟩
+      simpa [Gen.Vec.firstOnBranch] using h2
+    · rw [if_neg h2]
+      exact ⟨⟨rfl, rfl, rfl, rfl, rfl, rfl⟩, fun b => rfl, Or.inl ⟨rfl, rfl⟩⟩
+  · rw [if_neg h1]
+    by_cases h2 : Gen.Vec.extendsBranch (s.lastSeq (s.branchOf (e.parents.headD 0))) e.seq = true
+    · dsimp only; rw [if_pos h2]
+      refine ⟨⟨rfl, rfl, rfl, rfl, rfl, rfl⟩, fun b => rfl, Or.inr ⟨rfl, Or.inr ⟨?_, rfl, ?_⟩⟩⟩
+      · intro hnil; apply h1; simp [hnil]
+      · simpa [Gen.Vec.extendsBranch] using h2
+    · dsimp only; rw [if_neg h2]
+      exact ⟨⟨rfl, rfl, rfl, rfl, rfl, rfl⟩, fun b => rfl, Or.inl ⟨rfl, rfl⟩⟩
+
+theorem la_add_size (s : VState) (e : Event) : (s.add e).size = s.size + 1 := rfl
+
+theorem la_add_branchOf (s : VState) (e : Event) (a : Nat) :
+    (s.add e).branchOf a = if a = s.size then (s.assignBranch e).2 else s.branchOf a := by
+  have := (la_assign_cases s e).1.2.2.2.2.1
+  show (if a = s.size then (s.assignBranch e).2 else (s.assignBranch e).1.branchOf a) = _
+  rw [this]
+
+theorem la_add_parents (s : VState) (e : Event) (a : Nat) :
+    (s.add e).parents a = if a = s.size then e.parents else s.parents a := by
+  have := (la_assign_cases s e).1.2.1
+  show (if a = s.size then e.parents else (s.assignBranch e).1.parents a) = _
+  rw [this]
+
+theorem la_add_lastSeq (s : VState) (e : Event) : (s.add e).lastSeq = (s.assignBranch e).1.lastSeq := rfl
+theorem la_add_nBr (s : VState) (e : Event) : (s.add e).nBr = (s.assignBranch e).1.nBr := rfl
+theorem la_add_nVals (s : VState) (e : Event) : (s.add e).nVals = s.nVals :=
+  (la_assign_cases s e).1.2.2.2.2.2
+
+theorem la_add_la (s : VState) (e : Event) :
+    (s.add e).la = (VState.visitLA s.parents (s.assignBranch e).2 e.seq ((s.size + 1) * (s.size + 2))
+        e.parents.reverse s.la).setRow s.size (LAV.zero.set (s.assignBranch e).2 e.seq) := by
+  obtain ⟨hsz, hpar, hla, _⟩ := (la_assign_cases s e).1
+  show (VState.visitLA (s.assignBranch e).1.parents (s.assignBranch e).2 e.seq
+      (((s.assignBranch e).1.size + 1) * ((s.assignBranch e).1.size + 2)) e.parents.reverse
+      (s.assignBranch e).1.la).setRow s.size (LAV.zero.set (s.assignBranch e).2 e.seq) = _
+  rw [hsz, hpar, hla]
+
 end VecProofs
